@@ -121,6 +121,56 @@ func same(x, y slip.Object) slip.Object {
 	return y
 }
 
+// compareByValue compares a rational (fixnum, bignum, or ratio) with a float
+// (single, double, or long) by their exact values. Normalizing the pair
+// rounds the rational to the float type which makes a rational that is
+// different from the float but rounds to it the same as the float. The ok
+// return is false for any other pair and for a float that is not finite.
+func compareByValue(x, y slip.Object) (cmp int, ok bool) {
+	x, y = fixOrBig(x), fixOrBig(y)
+	if !rationalAndFloat(x, y) && !rationalAndFloat(y, x) {
+		return 0, false
+	}
+	rx, ry := exactRat(x), exactRat(y)
+	if rx == nil || ry == nil {
+		return 0, false
+	}
+	return rx.Cmp(ry), true
+}
+
+func rationalAndFloat(x, y slip.Object) bool {
+	switch x.(type) {
+	case slip.Fixnum, *slip.Bignum, *slip.Ratio:
+		switch y.(type) {
+		case slip.SingleFloat, slip.DoubleFloat, *slip.LongFloat:
+			return true
+		}
+	}
+	return false
+}
+
+// exactRat returns the exact value of a finite real as a big.Rat or nil if n
+// is not a real or is not finite.
+func exactRat(n slip.Object) (rat *big.Rat) {
+	switch tn := n.(type) {
+	case slip.Fixnum:
+		rat = new(big.Rat).SetInt64(int64(tn))
+	case *slip.Bignum:
+		rat = new(big.Rat).SetInt((*big.Int)(tn))
+	case *slip.Ratio:
+		rat = (*big.Rat)(tn)
+	case slip.SingleFloat:
+		rat = new(big.Rat).SetFloat64(float64(tn)) // nil if not finite
+	case slip.DoubleFloat:
+		rat = new(big.Rat).SetFloat64(float64(tn)) // nil if not finite
+	case *slip.LongFloat:
+		if !(*big.Float)(tn).IsInf() {
+			rat, _ = (*big.Float)(tn).Rat(nil)
+		}
+	}
+	return
+}
+
 // fixOrBig returns a signed-byte or unsigned-byte as a fixnum or bignum and
 // any other object as it is.
 func fixOrBig(n slip.Object) slip.Object {
